@@ -383,6 +383,7 @@ type remoteLayout struct {
 	Ordered   bool   `json:"ordered"`
 	Reqs      []int  `json:"request_sizes"`
 	CaseTwins bool   `json:"case_twins,omitempty"` // page addresses differ only in letter case
+	RefStyle  []int  `json:"ref_style,omitempty"`  // per page: successor written as 0 address | 1 {id} | 2 {id,type}
 	Nulls     bool   `json:"nulls,omitempty"`      // the last page says "next": null instead of leaving it out
 }
 
@@ -419,6 +420,12 @@ func remoteCase(c *ev.Ctx, s *sim.Sim, r *rand.Rand, n int) {
 	w.Stamp = false
 	base := fmt.Sprintf("https://%s/c10/%d-%d-%d", s.Host(2), c.R.Shard, n, r.Intn(1<<30))
 	l.CaseTwins, l.Nulls = r.Intn(4) == 0, r.Intn(4) == 0
+	l.RefStyle = make([]int, np+1)
+	if r.Intn(3) == 0 {
+		for i := range l.RefStyle {
+			l.RefStyle[i] = r.Intn(3)
+		}
+	}
 	addr := func(p int) string {
 		if p == 0 {
 			return base
@@ -463,7 +470,16 @@ func remoteCase(c *ev.Ctx, s *sim.Sim, r *rand.Rand, n int) {
 			doc["last"], doc["current"] = addr(np), addr(1)
 		}
 		if p < np {
-			doc[nextKey] = addr(p + 1)
+			// the successor is named by its address, or by an object that carries nothing but the address (and perhaps the type):
+			// all three are references to be fetched, not pages
+			switch l.RefStyle[p] {
+			case 1:
+				doc[nextKey] = map[string]any{"id": addr(p + 1)}
+			case 2:
+				doc[nextKey] = map[string]any{"id": addr(p + 1), "type": kind + "Page"}
+			default:
+				doc[nextKey] = addr(p + 1)
+			}
 		} else {
 			switch {
 			case strings.HasPrefix(l.Tail, "cycle"):
